@@ -51,7 +51,7 @@ func c14Gen(r *verifh.Rng) []verifh.Section {
 		for j := 0; j < n; j++ {
 			ops = append(ops, verifc14.GenOp(r, []string{"plain", "ctx", "ctx", "ctx", "ctxdone", "ctxdead"}, classes, verifh.Scale(6, 12), false))
 		}
-		secs = append(secs, verifh.Section{Cfg: "via=cached accept=" + r.PickS("none", "user", "user2", "both") +
+		secs = append(secs, verifh.Section{Cfg: "via=cached accept=" + r.PickS("none", "user", "user2", "both", "none", "user", "both", "usernil", "niluser") +
 			" cons=" + r.PickS("cache", "cache", "node", "conf"), Ops: ops})
 	}
 	return secs
@@ -71,6 +71,12 @@ func TestVerifC14Cached(t *testing.T) {
 			opts = append(opts, f2)
 		case "both":
 			opts = append(opts, f1, f2)
+		case "nil":
+			opts = append(opts, sqlx.WithAcceptable(nil))
+		case "usernil":
+			opts = append(opts, f1, sqlx.WithAcceptable(nil))
+		case "niluser":
+			opts = append(opts, sqlx.WithAcceptable(nil), f1)
 		}
 		drv := verifc14.NewDrv()
 		db := sql.OpenDB(drv)
